@@ -40,55 +40,72 @@ theorem count_of_sorted {l : List Nat} (h : l.Pairwise (· < ·)) (x : Nat) :
 
 /-- **Key lemma**: while a Publish is running, the cells its snapshot header denotes are never
     overwritten — `append` writes only at index ≥ the snapshot length or into a fresh array, the
-    repaired Unsubscribe allocates — and what it has delivered is exactly a prefix of the snapshot. -/
+    repaired Unsubscribe allocates — and what it has delivered is exactly the prefix of the snapshot it has
+    walked, minus the subscriptions without OnNext. -/
 theorem C10_snapshot_stable (grow : Nat → Nat) (s : State) (r : Reach grow s) (t : Nat) (f : PubF)
-    (hf : .pub f ∈ s.stacks t) : content s.heap f.h = f.snap ∧ f.dl = f.snap.take f.k := by
+    (hf : .pub f ∈ s.stacks t) :
+    content s.heap f.h = f.snap ∧ f.dl = (f.snap.take f.k).filter (fun x => !s.silent x) := by
   have := (Inv_reach grow r).frames t _ hf
   exact ⟨this.same, this.dl⟩
 
 /-- **C10_once** — for every finished Publish call `r`:
-    (1) a subscription registered before the call and still registered when it ends was invoked exactly once;
+    (1) a subscription (with an OnNext) registered before the call and still registered when it ends was invoked
+        exactly once;
     (2) a subscription whose Unsubscribe completed before the call was never invoked;
     (3) nobody was invoked twice; (4) invocations happened in subscription order;
     (5) only subscriptions registered before the call were invoked (one added during the call is not, a
         removed one may be — "only the subscription being added or removed may or may not see it");
-    in fact (6) the invocations are exactly the snapshot. -/
+    (6) a subscription without OnNext (zero-value Subscription) receives nothing — and does not disturb the others:
+    in fact (7) the invocations are exactly the snapshot minus the subscriptions without OnNext. -/
 theorem C10_once (grow : Nat → Nat) (s : State) (hr : Reach grow s) (r : PubRec) (hmem : r ∈ s.ended) :
-    (∀ x, 0 < x → x < r.f.n0 → x ∈ r.regEnd → r.f.dl.count x = 1) ∧
+    (∀ x, 0 < x → x < r.f.n0 → x ∈ r.regEnd → s.silent x = false → r.f.dl.count x = 1) ∧
     (∀ x ∈ r.f.done0, r.f.dl.count x = 0) ∧
     (∀ x, r.f.dl.count x ≤ 1) ∧
     r.f.dl.Pairwise (· < ·) ∧
     (∀ x ∈ r.f.dl, 0 < x ∧ x < r.f.n0) ∧
-    r.f.dl = r.f.snap := by
+    (∀ x, s.silent x = true → r.f.dl.count x = 0) ∧
+    r.f.dl = r.f.snap.filter (fun x => !s.silent x) := by
   have ok := (Inv_reach grow hr).ended r hmem
-  have hs := ok.static.sorted
+  have hsub : (r.f.snap.filter (fun x => !s.silent x)).Sublist r.f.snap := List.filter_sublist
+  have hs : (r.f.snap.filter (fun x => !s.silent x)).Pairwise (· < ·) := ok.static.sorted.sublist hsub
   rw [ok.all]
-  refine ⟨?_, ?_, ?_, hs, ok.static.old, rfl⟩
-  · intro x h0 hx hreg
-    rw [count_of_sorted hs]; simp [ok.kept x h0 hx hreg]
+  refine ⟨?_, ?_, ?_, hs, fun x hx => ok.static.old x (hsub.subset hx), ?_, rfl⟩
+  · intro x h0 hx hreg hsil
+    rw [count_of_sorted hs]
+    have : x ∈ r.f.snap.filter (fun x => !s.silent x) := by
+      rw [List.mem_filter]; exact ⟨ok.kept x h0 hx hreg, by simp [hsil]⟩
+    simp [this]
   · intro x hx
-    rw [count_of_sorted hs]; simp [ok.static.notDone x hx]
+    rw [count_of_sorted hs]
+    have : x ∉ r.f.snap.filter (fun x => !s.silent x) := fun h => ok.static.notDone x hx (hsub.subset h)
+    simp [this]
   · intro x
     rw [count_of_sorted hs]; split <;> omega
+  · intro x hsil
+    rw [count_of_sorted hs]
+    have : x ∉ r.f.snap.filter (fun x => !s.silent x) := by
+      rw [List.mem_filter]; simp [hsil]
+    simp [this]
 
 /-- **C10_once_log** — the same statement read off the GLOBAL log of all deliveries (`s.log`: one entry per
     OnNext invocation / Post, whoever made it): the entries that belong to a finished Publish call `r`
-    (`dlOf s.log r.f.pid`) are exactly its snapshot, hence (1) exactly once for a subscription registered
-    before and after, (2) never after a completed Unsubscribe, (3) at most once, (4) in subscription order.
-    Call ids are unique among live and finished calls (`PInv`), so no other call contributes entries. -/
+    (`dlOf s.log r.f.pid`) are exactly its snapshot minus the subscriptions without OnNext, hence (1) exactly
+    once for a subscription registered before and after, (2) never after a completed Unsubscribe, (3) at most
+    once, (4) in subscription order.  Call ids are unique among live and finished calls (`PInv`). -/
 theorem C10_once_log (grow : Nat → Nat) (s : State) (hr : Reach grow s) (r : PubRec) (hmem : r ∈ s.ended) :
-    dlOf s.log r.f.pid = r.f.snap ∧
-    (∀ x, 0 < x → x < r.f.n0 → x ∈ r.regEnd → (dlOf s.log r.f.pid).count x = 1) ∧
+    dlOf s.log r.f.pid = r.f.snap.filter (fun x => !s.silent x) ∧
+    (∀ x, 0 < x → x < r.f.n0 → x ∈ r.regEnd → s.silent x = false → (dlOf s.log r.f.pid).count x = 1) ∧
     (∀ x ∈ r.f.done0, (dlOf s.log r.f.pid).count x = 0) ∧
     (∀ x, (dlOf s.log r.f.pid).count x ≤ 1) ∧
     (dlOf s.log r.f.pid).Pairwise (· < ·) := by
   have h := C10_once grow s hr r hmem
   rw [(PInv_reach grow hr).fin r hmem]
-  exact ⟨h.2.2.2.2.2, h.1, h.2.1, h.2.2.1, h.2.2.2.1⟩
+  exact ⟨h.2.2.2.2.2.2, h.1, h.2.1, h.2.2.1, h.2.2.2.1⟩
 
-/-- while a Publish is running, its part of the global log is the prefix of the snapshot delivered so far -/
+/-- while a Publish is running, its part of the global log is the walked prefix of the snapshot (minus the
+    subscriptions without OnNext) -/
 theorem C10_log_running (grow : Nat → Nat) (s : State) (hr : Reach grow s) (t : Nat) (f : PubF)
-    (hf : .pub f ∈ s.stacks t) : dlOf s.log f.pid = f.snap.take f.k := by
+    (hf : .pub f ∈ s.stacks t) : dlOf s.log f.pid = (f.snap.take f.k).filter (fun x => !s.silent x) := by
   rw [(PInv_reach grow hr).live t f hf]
   exact ((Inv_reach grow hr).frames t _ hf).dl
 
@@ -98,7 +115,8 @@ theorem C10_once_running (grow : Nat → Nat) (s : State) (hr : Reach grow s) (t
     (∀ x, f.dl.count x ≤ 1) ∧ f.dl.Pairwise (· < ·) ∧ (∀ x ∈ f.done0, f.dl.count x = 0) ∧
     (∀ x ∈ f.dl, 0 < x ∧ x < f.n0) := by
   have ok := (Inv_reach grow hr).frames t _ hf
-  have hsub : (f.snap.take f.k).Sublist f.snap := List.take_sublist _ _
+  have hsub : ((f.snap.take f.k).filter (fun x => !s.silent x)).Sublist f.snap :=
+    List.filter_sublist.trans (List.take_sublist _ _)
   have hs : f.dl.Pairwise (· < ·) := by rw [ok.dl]; exact ok.static.sorted.sublist hsub
   refine ⟨?_, hs, ?_, ?_⟩
   · intro x; rw [count_of_sorted hs]; split <;> omega
@@ -122,9 +140,9 @@ theorem C10_unsubscribed_stays_out (grow : Nat → Nat) (s : State) (hr : Reach 
     PARTIAL: the composition with the derived publisher's own transition system (its C10_once) is argued on
     paper and exercised by the Map-chain correspondence (depth 1–3), not proved in Lean. -/
 theorem C10_map_partial (grow : Nat → Nat) (s : State) (hr : Reach grow s) (r : PubRec) (hmem : r ∈ s.ended)
-    (x : Nat) (h0 : 0 < x) (hbefore : x < r.f.n0) (hstill : x ∈ r.regEnd) :
+    (x : Nat) (h0 : 0 < x) (hbefore : x < r.f.n0) (hstill : x ∈ r.regEnd) (hfn : s.silent x = false) :
     ((s.log.filter (fun e => e.1 = r.f.pid ∧ e.2.1 = x)).map (fun e => e.2.2.1)) = [r.f.val] := by
-  have hcount := (C10_once_log grow s hr r hmem).2.1 x h0 hbefore hstill
+  have hcount := (C10_once_log grow s hr r hmem).2.1 x h0 hbefore hstill hfn
   have hval := (PInv_reach grow hr).finV r hmem
   have hlen : (s.log.filter (fun e => e.1 = r.f.pid ∧ e.2.1 = x)).length = 1 := by
     rw [← hcount]
@@ -208,6 +226,12 @@ example : ∃ s, Reach goGrow s ∧ ∃ r ∈ s.ended, r.f.snap = [1, 2, 3] ∧ 
     | cons r rest =>
       simp [summary, hs] at hw
       exact ⟨r, by simp, hw.1, hw.2.2⟩
+
+/-- non-vacuity for the nil-OnNext clause: [A, Z (zero-value Subscription), C] — invoked A, C; the loop goes on past Z -/
+theorem C10_witness_nil :
+    summary (run true goGrow init
+      [.subscribe 0, .subscribeNil 0, .subscribe 0, .pubBegin 0 7, .deliver 0, .cbReturn 0, .deliver 0,
+       .deliver 0, .cbReturn 0, .pubEnd 0]) = some ([1, 2, 3], [1, 3], [1, 2, 3]) := by decide
 
 /-! ### closing theorems over the regenerated protocol skeletons and slice facts of publisher.go -/
 
